@@ -15,7 +15,7 @@ open Node Raft Raft.CC RaftProps.C02 RaftProps.C05 Snap
 variable {cfg : JointConfig} {c0 : Nat} {h : List Sys}
 
 /-- the chains of the initial state start at the common snapshot point and are gap-free -/
-theorem init_chain (H : Hyp2 cfg c0 h) {s0 : Sys} (h0 : h[0]? = some s0) {loc : Loc} {g : LLog}
+theorem init_chain (H : Hyp2w cfg c0 h) {s0 : Sys} (h0 : h[0]? = some s0) {loc : Loc} {g : LLog}
     (hat : At s0 loc g) : g.snapIdx = c0 ∧ g.Contig := by
   have hinit := hist_init H.hist s0 h0
   have hsn : ∀ j stj, s0.node j = some stj → (storeLog stj.raft.raftLog.store).snapIdx = c0 := by
@@ -40,11 +40,11 @@ theorem init_chain (H : Hyp2 cfg c0 h) {s0 : Sys} (h0 : h[0]? = some s0) {loc : 
 
 /-- **the last term of a log is not below the term of an entry of a led term it holds** (in its
 ghost log) -/
-theorem has_le_lastTerm (H : Hyp3 cfg c0 h) {n : Nat} {a : Sys} (ha : h[n]? = some a) {v : Nat}
+theorem has_le_lastTerm (H : Hyp3a cfg c0 h) {n : Nat} {a : Sys} (ha : h[n]? = some a) {v : Nat}
     {st : NState} (hv : a.node v = some st) {c t : Nat} (hh : Has (FL h c0 st) c t)
     {n' : Nat} {s' : Sys} {l' : Nat} (hn' : h[n']? = some s') (hl' : leads s' l' t) {lt : Nat}
     (hlt : st.raft.raftLog.lastTerm = .ok lt) : t ≤ lt := by
-  have H2 := H.toHyp2
+  have H2 := H.toHyp2w
   have o := node_ok H2 ha hv
   have I := (ghost_inv H2 n a ha).node v st hv
   rw [o.inv.lastTerm_abs] at hlt
@@ -79,7 +79,7 @@ theorem has_le_lastTerm (H : Hyp3 cfg c0 h) {n : Nat} {a : Sys} (ha : h[n]? = so
     omega
 
 /-- **a node that led a term is never candidate of that term afterwards** -/
-theorem led_not_cand (H : Hyp2 cfg c0 h) {m' : Nat} {s' : Sys} {l T : Nat} (hm' : h[m']? = some s')
+theorem led_not_cand (H : Hyp2w cfg c0 h) {m' : Nat} {s' : Sys} {l T : Nat} (hm' : h[m']? = some s')
     (hl : leads s' l T) :
     ∀ (d : Nat) (s : Sys), h[m' + d]? = some s → ∀ st, s.node l = some st →
       ¬ (st.raft.state = .candidate ∧ st.raft.term = T) := by
@@ -129,7 +129,7 @@ theorem led_not_cand (H : Hyp2 cfg c0 h) {m' : Nat} {s' : Sys} {l T : Nat} (hm' 
       exact ih _ ha _ hst ⟨hc, ht⟩
 
 /-- a granted vote that is around carries a term its sender has reached -/
-theorem grant_term_le (H : Hyp2 cfg c0 h) {n : Nat} {a : Sys} (ha : h[n]? = some a) {v : Nat}
+theorem grant_term_le (H : Hyp2w cfg c0 h) {n : Nat} {a : Sys} (ha : h[n]? = some a) {v : Nat}
     {st : NState} (hv : a.node v = some st) {g : Message} (hg : g ∈ a.net ∨ g ∈ st.raft.msgs)
     (hig : isGrant g) (hfrm : g.frm = v) : g.term ≤ st.raft.term := by
   have I1 := (hist_all H.hist).1 a (mem_of_get ha)
@@ -142,7 +142,7 @@ theorem grant_term_le (H : Hyp2 cfg c0 h) {n : Nat} {a : Sys} (ha : h[n]? = some
     · exact (I1.queue v st hv g c hrv).2.2.2.1
   rcases hge with c | ⟨c, _⟩ <;> omega
 
-theorem g1_step (H : Hyp3 cfg c0 h) {n : Nat} (S : SAll h c0 n) {a b : Sys}
+theorem g1_step (H : Hyp3a cfg c0 h) {n : Nat} (S : SAll h c0 n) {a b : Sys}
     (ha : h[n]? = some a) (hb : h[n + 1]? = some b) :
     ∀ E : Ev, E.ok h → ∀ v st' g, b.node v = some st' → (g ∈ b.net ∨ g ∈ st'.raft.msgs) →
       isGrant g → g.frm = v → E.t < g.term → AckedMem b (n + 1) E v st' →
@@ -150,7 +150,7 @@ theorem g1_step (H : Hyp3 cfg c0 h) {n : Nat} (S : SAll h c0 n) {a b : Sys}
       ∃ q ∈ b.net, q.msgType = .msgRequestVote ∧ q.frm = g.to ∧ q.term = g.term ∧
         UpTo q E.c E.t := by
   intro E hE v st' g hvb hg hig hfrm hEt hk hnl
-  have H2 := H.toHyp2
+  have H2 := H.toHyp2w
   have Sa := S n a (Nat.le_refl _) ha
   have hnl' : ¬ LedBy h n g.term := fun hc => hnl (hc.mono (Nat.le_succ _))
   obtain ⟨_, _, hc0⟩ := Ev.leaderLog H2 hE
